@@ -64,6 +64,7 @@ type udpSock struct {
 	readClose bool
 	closed    bool
 	rch       chan func()
+	rch2      chan func() // a second reader goroutine
 	reads     int
 }
 
@@ -215,7 +216,12 @@ func b2i(b bool) int {
 }
 
 // read takes one datagram from socket si and checks it against the arrivals.
-func (w *udpWorld) read(si int) bool {
+func (w *udpWorld) read(si int) bool { return w.readMode(si, false) }
+
+// readMode: with concurrent set, another reader may be inside Read on the same
+// socket: the two calls may finish in either order, so arrivals are matched
+// wherever they are and nothing is inferred about the ones passed over.
+func (w *udpWorld) readMode(si int, concurrent bool) bool {
 	if si < 0 || si >= len(w.socks) {
 		return false
 	}
@@ -233,8 +239,12 @@ func (w *udpWorld) read(si int) bool {
 	// the earliest arrival record with an unreturned copy of exactly these bytes from this sender
 	var hit *udpArrival
 	idx := -1
+	from0 := s.next
+	if concurrent {
+		from0 = 0
+	}
 	for pass := 0; pass < 2 && hit == nil; pass++ {
-		for i := s.next; i < len(s.arrivals); i++ {
+		for i := from0; i < len(s.arrivals); i++ {
 			a := s.arrivals[i]
 			if a.takenN < a.copies && bytes.Equal(a.payload, v) && (pass == 1 || (a.src == from.Addr && a.sport == from.Port)) {
 				hit, idx = a, i
@@ -252,14 +262,22 @@ func (w *udpWorld) read(si int) bool {
 		w.Fail("datagram-altered", "", "socket %d (port %d): Read returned %d bytes (% x...) that are not the payload of any datagram sent to it (truncated, split, merged or invented)", si, s.port, len(v), head(v, 16))
 		return true
 	}
-	// everything passed over was dropped whole
-	for i := s.next; i < idx; i++ {
-		w.pass(si, s, s.arrivals[i])
-	}
-	hit.takenN++
-	s.next = idx
-	if hit.takenN == hit.copies {
-		s.next = idx + 1
+	if concurrent {
+		hit.takenN++
+		w.Probes["reads_overlapping_another_reader"]++
+		for s.next < len(s.arrivals) && s.arrivals[s.next].takenN == s.arrivals[s.next].copies {
+			s.next++
+		}
+	} else {
+		// everything passed over was dropped whole
+		for i := s.next; i < idx; i++ {
+			w.pass(si, s, s.arrivals[i])
+		}
+		hit.takenN++
+		s.next = idx
+		if hit.takenN == hit.copies {
+			s.next = idx + 1
+		}
 	}
 	if !hit.afterRC {
 		s.unread -= len(hit.payload)
@@ -306,6 +324,17 @@ func (w *udpWorld) write(si, n, dstSel int) {
 			dst = udpPeers6[0]
 		} else {
 			dst = udpPeers4[0]
+		}
+		if dstSel&4 != 0 {
+			// sendto on a connected socket: the datagram goes where this call says, not to the connected peer
+			if v6 {
+				dst = udpPeers6[dstSel%2]
+			} else {
+				dst = udpPeers4[dstSel%2]
+			}
+			dport = 9000 + uint16(dstSel>>1)%2
+			opts.To = &tcpip.FullAddress{Addr: dst, Port: dport}
+			w.Probes["sendto_on_connected_socket"]++
 		}
 	}
 	got, _, err := s.ep.Write(tcpip.SlicePayload(append([]byte(nil), payload...)), opts)
@@ -372,11 +401,16 @@ func (w *udpWorld) apply(s Step) {
 	case "read":
 		w.read(s.A)
 	case "aread":
+		// B selects one of two reader goroutines of the socket: two application threads may read one socket
 		if s.A >= 0 && s.A < len(w.socks) {
 			sk := w.socks[s.A]
-			if sk.rch == nil {
-				sk.rch = make(chan func(), 64)
-				ch := sk.rch
+			rp := &sk.rch
+			if s.B%2 == 1 {
+				rp = &sk.rch2
+			}
+			if *rp == nil {
+				*rp = make(chan func(), 64)
+				ch := *rp
 				go func() {
 					for f := range ch {
 						f()
@@ -386,7 +420,7 @@ func (w *udpWorld) apply(s Step) {
 			w.pending++
 			a := s.A
 			select {
-			case sk.rch <- func() { w.read(a); w.pending-- }:
+			case *rp <- func() { w.readMode(a, sk.rch2 != nil); w.pending-- }:
 			default:
 				w.pending--
 			}
@@ -449,7 +483,7 @@ func (w *udpWorld) next() Step {
 		return Step{Op: "burst", A: si, B: r.Range(2, 40), C: r.Intn(16), D: int64([]int{100, 1000, 2000, 8000}[r.Intn(4)])}
 	case 3:
 		if w.YieldP > 0 && r.Chance(0.8) {
-			return Step{Op: "aread", A: si}
+			return Step{Op: "aread", A: si, B: r.Pick(3, 1)}
 		}
 		return Step{Op: "read", A: si}
 	case 4:
@@ -505,6 +539,9 @@ func (scUDP) Run(t *testing.T, prop string, seed uint64, cfgRaw json.RawMessage,
 				}
 			}
 			reads += s.reads
+			if s.rch2 != nil {
+				close(s.rch2)
+			}
 			if s.rch != nil {
 				close(s.rch)
 			}
